@@ -25,6 +25,7 @@ import (
 	"strings"
 
 	"github.com/iden3/go-merkletree-sql/v2"
+	"github.com/iden3/go-schema-processor/v2/merklize"
 	"github.com/iden3/go-schema-processor/v2/verifiable"
 )
 
@@ -324,4 +325,69 @@ func emitRegistryScene(out *Out, r *Rng, s *verifySetup, sc *regScene, staleBody
 	c.Prop = propOf(why)
 	setCurrent(nil, nil)
 	out.Emit(c)
+}
+
+// a document the issuer never signed: the credential is changed after issuance (one bound statement), its proof list holds F - a proof
+// that carries the *changed* document's own claim under the genuine signature of the original claim, so it is bound but not signed -
+// and G, the issuer's genuine proof of the original credential, which is signed but not bound. No order of the two makes the signature
+// a signature over this document's claim: verification of the signature proof must fail (predicate only; the same lists, as lists,
+// are C06's model-compared cases).
+func emitForgedDocumentLists(out *Out, r *Rng) {
+	s := newVerifySetup(r, false, 0)
+	muts := credMutations()
+	for try := 0; try < 6; try++ {
+		m := muts[r.Intn(len(muts))]
+		if m.name == "none" || m.name == "unbound-credential-id" || (m.merklOnly && s.c.SerAttr != "") {
+			continue
+		}
+		c2 := cloneCred(s.c)
+		if !m.apply(c2, r) {
+			continue
+		}
+		merklize.SetDocumentLoader(c2.loader())
+		fresh, err := c2.W3C()
+		if err != nil {
+			continue
+		}
+		cl2, e := runToCoreClaim(fresh, optsFromClaim(s.claim), c2)
+		if e != nil {
+			continue
+		}
+		h1, _ := cl2.Hex()
+		h0, _ := s.claim.Hex()
+		if h1 == h0 {
+			continue // the change does not reach the claim (nothing to forge)
+		}
+		g := s.is.SignBJJ(s.claim)
+		f := s.is.SignBJJ(cl2)
+		f.Signature = g.Signature
+		reg := &verifiable.CredentialStatusResolverRegistry{}
+		reg.Register(verifiable.SparseMerkleTreeProof, statusResolver{func(st verifiable.CredentialStatus) (verifiable.RevocationStatus, error) {
+			return s.is.RevStatus(st.RevocationNonce), nil
+		}})
+		var why []string
+		orders := []string{"FG", "GF", "FGG", "GFG", "F", "G"}
+		for _, ord := range orders {
+			v, _ := c2.W3C()
+			for _, ch := range ord {
+				if ch == 'F' {
+					v.Proof = append(v.Proof, f)
+				} else {
+					v.Proof = append(v.Proof, g)
+				}
+			}
+			k := 0
+			verr := runVerify(v, verifiable.BJJSignatureProofType, resolverCfg{mode: "unpublished"}.resolver(&k), reg, c2.loader())
+			if verr == nil {
+				why = append(why, fmt.Sprintf("a document the issuer never signed (%s changed after issuance) passes signature-proof verification with the proof list %s: no proof in it is a valid signature over this document's claim", m.name, ord))
+			}
+			if errClass(verr) == "panic" || errClass(verr) == "hang" {
+				why = append(why, verr.Error())
+			}
+		}
+		out.Emit(Case{Op: "none", In: J{"forged": m.name, "orders": orders}, Impl: J{}, Prop: propOf(why), Tags: []string{"forged-document-list", "mut:" + m.name}, NT: true})
+		merklize.SetDocumentLoader(s.c.loader())
+		return
+	}
+	merklize.SetDocumentLoader(s.c.loader())
 }
